@@ -48,6 +48,10 @@ structure LSt where
   iters : List Iter := []
   dead : Nat := 0
   raised : Bool := false
+  /-- instances of a loop body that only DECLARES queries (`mkq`, never evaluated) which are still alive after the user
+  dropped every instance of the body while the declared query objects are still held: a declared, not yet evaluated query
+  has not ranged over anything and must pin nothing (maximum over the iterations) -/
+  pin : Nat := 0
 
 def shiftL (d : Nat) : LOp → LOp
   | .x op => .x (shiftX d op)
@@ -134,6 +138,15 @@ def runLoop (q : Quirks) (n : Nat) (pre body : List LOp) : LSt × List Sizes × 
       let b := body.map (shiftL (1000 * i))
       let r1 := runL q r b
       let before := r1.st.h.live.map (·.obj)
+      -- a body that declares queries without evaluating any: the instances are dropped FIRST, and what is still alive while
+      -- the declared queries are held is counted (`pin`); every other body is cleaned up as before (queries first)
+      let declOnly := b.any (fun op => match op with | .x (.m (.mkq ..)) => true | _ => false) &&
+        !b.any (fun op => match op with | .x (.m (.evalq _)) => true | .qstart .. => true | .qdrain _ => true | _ => false)
+      let created := b.filterMap fun op => match op with
+        | .x (.m (.new o _ _)) => some o | .x (.m (.newrole o _ _ _)) => some o | .x (.newholder o _) => some o
+        | .x (.clone o _ _) => some o | .x (.adopt o _ _) => some o | _ => none
+      let rI := if declOnly then runL q r1 (created.map fun o => LOp.x (XOp.m (Op.drop o))) else r1
+      let r1 := if declOnly then { rI with pin := max rI.pin ((created.filter rI.st.h.isLive).length) } else r1
       let r2 := runL q r1 (cleanup b)
       let died := before.any (fun o => !r2.st.h.isLive o)
       let diedBody := (r.st.h.live.map (·.obj) ++
@@ -153,9 +166,9 @@ def obs (q : Quirks) (n : Nat) (pre body : List LOp) : String :=
   let rel := classify (ss.map (·.rel)) ++ "/" ++ (if relStale st then "stale" else "clean")
   s!"surv={showNats surv} nodes={classify (ss.map (·.nodes))} cls={classify (ss.map (·.cls))} " ++
   s!"edges={classify (ss.map (·.edges))} rel={rel} inst={inst} expr={classify (ss.map (·.exprs))} rx={classify (ss.map (·.exprs))}" ++
-  s!" dead={r.dead}" ++ (if r.raised then " raised" else "")
+  s!" dead={r.dead} pin={r.pin}" ++ (if r.raised then " raised" else "")
 
-def specObs : String := "surv=[] nodes=flat cls=flat edges=flat rel=flat/clean inst=clean expr=flat rx=flat dead=0"
+def specObs : String := "surv=[] nodes=flat cls=flat edges=flat rel=flat/clean inst=clean expr=flat rx=flat dead=0 pin=0"
 
 def run (s : Sexp) : String :=
   match s with
